@@ -51,21 +51,23 @@ def answerFn (fs : List (String × String)) : String :=
     | some ids, some tried, some levels =>
       let search := fun kk => ((levels.find? (·.1 == kk)).map (·.2)).getD []
       let pts := List.range sp.N
+      -- oracles on the implementation's observations (independent of the model run)
+      let rejected := levels.filter fun (kk, _) => kk ∈ tried.dropLast
+      let need := match rejected.find? fun (_, g) => stronglyConnected g sp.N with
+        | none => "ok"
+        | some (kk, _) => s!"bad@{kk}"
+      let exact := match levels.findSome? fun (kk, g) =>
+          (g.zipIdx.find? fun (l, i) => !isExactKnn sp.dist pts kk i l).map fun (_, i) => s!"bad@{kk}:{i}" with
+        | none => "ok"
+        | some e => e
+      let orc := s!"sc={b2s (stronglyConnected ids sp.N)} need={need} exact={exact} uni={b2s (uniform ids sp.N)}"
       match findNeighbors search sp.N check (findFuel sp.N) k [] with
       | .ok f =>
         let same := f.graph == ids && f.tried == tried
-        let rejected := levels.filter fun (kk, _) => kk ∈ f.tried.dropLast
-        let need := match rejected.find? fun (_, g) => stronglyConnected g sp.N with
-          | none => "ok"
-          | some (kk, _) => s!"bad@{kk}"
-        let exact := match levels.findSome? fun (kk, g) =>
-            (g.zipIdx.find? fun (l, i) => !isExactKnn sp.dist pts kk i l).map fun (_, i) => s!"bad@{kk}:{i}" with
-          | none => "ok"
-          | some e => e
         let mt := String.intercalate "," (f.tried.map toString)
-        s!"mtried={mt} mk={f.k} same={b2s same} sc={b2s (stronglyConnected ids sp.N)} need={need} exact={exact} uni={b2s (uniform ids sp.N)}"
-      | .oob => "mtried=oob"
-      | .fuelOut => "mtried=fuel"
+        s!"mtried={mt} mk={f.k} same={b2s same} {orc}"
+      | .oob => s!"mtried=oob mk=- same=0 {orc}"
+      | .fuelOut => s!"mtried=fuel mk=- same=0 {orc}"
     | _, _, _ => "bad-case impl-fields"
 
 def answer (line : String) : String :=
